@@ -63,6 +63,7 @@ type CallRecord struct {
 	ExpectStatus    int    `json:"expect_status"`
 	ExpectErrClass  string `json:"expect_err_class,omitempty"`
 	MayRefuse       bool   `json:"may_refuse,omitempty"` // a value contains its style's delimiter: an error is as good as exact delivery
+	HasBody         bool   `json:"has_body,omitempty"`   // echoOpt: the optional body was supplied
 	ReqCT           string `json:"req_ct,omitempty"`     // Content-Type of the request as the client sent it
 	ReqMethod       string `json:"req_method,omitempty"` // method and escaped path as they went on the wire (after an intermediary rewrote them)
 	ReqPath         string `json:"req_path,omitempty"`
@@ -660,6 +661,46 @@ func (handler) EchoParams(ctx context.Context, params api.EchoParamsParams) (*ap
 	return paramsEcho(params), nil
 }
 
+// optSeen is what the handler of the operation with an optional body records.
+type optSeen struct {
+	Kind string // none | json | stream
+	V    string
+	Sum  string
+	Len  int
+	Err  string
+}
+
+func (handler) EchoOpt(ctx context.Context, req api.EchoOptReq) (*api.EchoOptOK, error) {
+	yield(ctx)
+	var seen optSeen
+	switch b := req.(type) {
+	case *api.EchoOptReqEmptyBody:
+		seen.Kind = "none"
+	case *api.EchoOptReqApplicationJSON:
+		seen.Kind, seen.V = "json", b.V
+	case *api.EchoOptReqApplicationOctetStream:
+		seen.Kind = "stream"
+		data, err := io.ReadAll(b.Data)
+		seen.Sum, seen.Len = sum(data), len(data)
+		if err != nil {
+			seen.Err = "read error"
+		}
+	}
+	saw(ctx, canon(seen))
+	if seen.Err != "" {
+		return nil, errors.New("stream broke")
+	}
+	out := &api.EchoOptOK{Kind: seen.Kind}
+	if seen.Kind == "json" {
+		out.V.SetTo(seen.V)
+	}
+	if seen.Kind == "stream" {
+		out.Sum.SetTo(seen.Sum)
+		out.Len.SetTo(seen.Len)
+	}
+	return out, nil
+}
+
 func (handler) EchoSeg(ctx context.Context, params api.EchoSegParams) (*api.EchoSegOK, error) {
 	yield(ctx)
 	saw(ctx, canon(params))
@@ -1149,6 +1190,32 @@ func doCall(ctx context.Context, c *api.Client, rec *CallRecord) {
 		rec.ExpectClientGot = canon(*paramsEcho(params))
 		rec.ExpectStatus = 200
 		res, err := c.EchoParams(ctx, params)
+		finish(rec, res, err)
+	case "echoOpt":
+		// an operation whose body is optional: nothing, a JSON object, or a stream of unknown length
+		var req api.EchoOptReq
+		var seen optSeen
+		out := api.EchoOptOK{}
+		switch r.intn(3) {
+		case 0:
+			req, seen.Kind = &api.EchoOptReqEmptyBody{}, "none"
+		case 1:
+			v := "v " + tag
+			req, seen.Kind, seen.V = &api.EchoOptReqApplicationJSON{V: v}, "json", v
+			out.V.SetTo(v)
+		default:
+			b := payload("opt-"+tag, []int{1, 10, 700, 5000}[r.intn(4)])
+			req = &api.EchoOptReqApplicationOctetStream{Data: streamReader(call.Reader, b)}
+			seen.Kind, seen.Sum, seen.Len = "stream", sum(b), len(b)
+			out.Sum.SetTo(seen.Sum)
+			out.Len.SetTo(seen.Len)
+		}
+		out.Kind = seen.Kind
+		rec.HasBody = seen.Kind != "none"
+		rec.ExpectServerSaw = canon(seen)
+		rec.ExpectClientGot = canon(out)
+		rec.ExpectStatus = 200
+		res, err := c.EchoOpt(ctx, req)
 		finish(rec, res, err)
 	case "echoSeg":
 		text := func() string {
